@@ -177,7 +177,8 @@ MomentObs(kind) ==
 LossObs == [loss \in {"square", "absolute", "zero_one"} |->
              [kv \in 1..2 |-> [pred |-> PredVec(kv - 1),
                                g01 |-> [g \in 1..G |-> IF g \in GroupsPresent THEN BGLGamma(loss, PredVec(kv - 1), 0, 2, g) ELSE Undef],
-                               gwide |-> [g \in 1..G |-> IF g \in GroupsPresent THEN BGLGamma(loss, PredVec(kv - 1), -2, 4, g) ELSE Undef]]]]
+                               gwide |-> [g \in 1..G |-> IF g \in GroupsPresent THEN BGLGamma(loss, PredVec(kv - 1), -2, 4, g) ELSE Undef],
+                               gmid |-> [g \in 1..G |-> IF g \in GroupsPresent THEN BGLGamma(loss, PredVec(kv - 1), 0, 3, g) ELSE Undef]]]]
 ErrObs == [q \in 1..Len(Costs) |-> [costs |-> Costs[q], e0 |-> CostErr(ZeroH, Costs[q][1], Costs[q][2]),
                                      eunit |-> [i \in Rows |-> CostErr(UnitH(i), Costs[q][1], Costs[q][2])],
                                      w |-> [i \in Rows |-> ObjW(i, Costs[q][1], Costs[q][2])]]]
